@@ -344,3 +344,26 @@ def _fetch_slice_c(split, pad0, pad1, vr1, i, off, ln):
         if not ok:
             return False
     return True
+
+
+def fetch_slice_three_segments(pad0: int, pad1: int, cs1: bool, vr1: bool, vr2: bool, off: int, ln: int) -> bool:
+    """
+    pre: 0 <= pad0 <= 1 and 0 <= pad1 <= 2
+    pre: 0 <= off <= 34 and -1 <= ln <= 12
+    pre: PART < 0 or (4 if vr1 else 0) + (2 if vr2 else 0) + pad0 == PART
+    post: _
+    """
+    # one record of THREE segments (a running position inside the record that is only right for the first two segments shows here)
+    pad0, pad1, cs1, vr1, vr2 = mark.pick(pad0, 0, 1), mark.pick(pad1, 0, 2), mark.pickb(cs1), mark.pickb(vr1), mark.pickb(vr2)
+    off, ln = mark.pick(off, 0, 34), mark.pick(ln, -1, 12)
+    with mark.untraced():
+        recs = build(3, 3, [(pad0, False, False, False, True), (pad1, cs1, False, False, vr1), (0, False, True, False, vr2)], [7, 9, 11])
+        exp = R.expected(recs)
+        data, layout = R.encode(recs)
+        f = SymFile(data)
+        fr = pFile.FileRead(f)
+        fr._enter()
+        got = fr.get_file_logical_data(_Pos(layout[0][0], layout[0][1]), off, ln).logical_data.bytes
+        mark.hit()
+        want = exp[0][2][off:] if ln < 0 else exp[0][2][off:off + ln]
+        return got == want
